@@ -65,7 +65,8 @@ class C17(Campaign):
                    "copy of a copy", "event triggers bound onto the copied model (bind_events_to)",
                    "the model holds its machine and the MODEL is copied (model.sm <-> sm.model cycle)",
                    "listener classes with value-based __eq__/__hash__ (a copy equals its original)",
-                   "snapshot-after-failed-op", "diverging suffixes, interleaved"]
+                   "snapshot-after-failed-op", "diverging suffixes, interleaved",
+                   "allow_event_without_transition reassigned on a live machine (before / after the snapshot)"]
     rule = ("one run = a generated machine (all option combinations rtc x allow x state_field x start_value, "
             "custom attribute, model and listener callbacks, sync/async) driven through a prefix, copied with "
             "deepcopy or pickle at a seeded point, then original and clone driven through different, interleaved "
@@ -124,6 +125,12 @@ class C17(Campaign):
             for _ in range(rnd.randint(1, 4)):
                 out.append({"op": "send", "inst": rnd.choice(["C", "C", "B"]), "event": rnd.choice(prog["events"]),
                             "kwargs": {"x": rnd.randrange(7000, 7999)} if rnd.random() < 0.4 else {}})
+        if rnd.random() < 0.25:
+            # the option is a public attribute read at every event: reassigned on a live machine, before
+            # or after the snapshot, it must hold for that copy (and for copies taken afterwards)
+            at2 = rnd.randrange(1, len(out))
+            who = "A" if at2 <= out.index(next(o for o in out if o["op"] == "clone")) else rnd.choice(["A", "B"])
+            out.insert(at2, {"op": "setopt", "inst": who, "allow": rnd.random() < 0.5})
         if new.get("bind_model"):
             for o in out:
                 if o["op"] == "send" and o["event"] in prog["events"] and rnd.random() < 0.5:
